@@ -47,6 +47,74 @@ def time_limit(seconds):
             signal.alarm(max(1, int(prev - (time.time() - t0))))
 
 
+def fork_call(fn, timeout_s):
+    """fn() in a forked child with a hard deadline: ("ok", value) or ("killed", None). For steps that can
+    wedge the process itself (a decoder at the address-space limit, a C call no signal interrupts): the
+    parent worker stays clean whatever happens to the child. The value must be picklable."""
+    import pickle
+    import select
+
+    r_fd, w_fd = os.pipe()
+    pid = os.fork()
+    if pid == 0:
+        code = 0
+        try:
+            os.close(r_fd)
+            signal.alarm(0)
+            try:
+                faulthandler.cancel_dump_traceback_later()
+            except Exception:
+                pass
+            try:
+                payload = pickle.dumps(("ok", fn()))
+            except BaseException as e:  # noqa
+                payload = pickle.dumps(("raised", "%s: %s" % (type(e).__name__, str(e)[:200])))
+            with os.fdopen(w_fd, "wb") as f:
+                f.write(payload)
+        except BaseException:  # noqa
+            code = 1
+        finally:
+            os._exit(code)
+    os.close(w_fd)
+    chunks = []
+    deadline = time.time() + timeout_s
+    try:
+        while True:
+            left = deadline - time.time()
+            if left <= 0:
+                break
+            ready, _, _ = select.select([r_fd], [], [], min(left, 1.0))
+            if ready:
+                b = os.read(r_fd, 1 << 20)
+                if not b:
+                    break
+                chunks.append(b)
+    finally:
+        os.close(r_fd)
+    done = False
+    try:
+        wpid, _st = os.waitpid(pid, os.WNOHANG)
+        done = wpid == pid
+    except ChildProcessError:
+        done = True
+    if not done:
+        try:
+            os.kill(pid, signal.SIGKILL)
+        except ProcessLookupError:
+            pass
+        try:
+            os.waitpid(pid, 0)
+        except ChildProcessError:
+            pass
+    data = b"".join(chunks)
+    if data:
+        try:
+            return pickle.loads(data)
+        except Exception:
+            pass
+    return ("killed", None)
+
+
 class Ctx:
     """What a property module sees."""
 
